@@ -994,5 +994,5 @@ End Favor.
 (* the code in /repo is the repaired code, and the anchors the model relies on are in place *)
 Lemma current_is_repaired :
   Current = Repaired /\ multi_get_range_is_floor_split = true /\ multi_job_flag_overrides = true /\
-  multi_dev_profile_compares_hasher = true /\ MULTI_EARLY_RETURNS = 1.
+  multi_dev_profile_compares_hasher = true /\ multi_hands_input_back = true /\ MULTI_EARLY_RETURNS = 1.
 Proof. repeat split; reflexivity. Qed.
